@@ -59,6 +59,29 @@ def check_property(pid, tier, seed):
         for h in u.harnesses:
             if pid in h.props and (tier == "thorough" or h.tier == "quick"):
                 sel.append(h)
+    # mechanical scan of what the selected harnesses replace or assume (never proved here)
+    import re as _re
+    for h in sel:
+        m0 = h.unit.text.find(f"pub fn {h.name}(")
+        pre = h.unit.text[max(0, m0 - 900):m0]
+        pre = pre[pre.rfind("//# harness:"):] if "//# harness:" in pre else pre
+        for sm in _re.finditer(r"kani::stub\(([^,]+),\s*([^)]+)\)", pre):
+            e = f"kani::stub {sm.group(1).strip()} -> {sm.group(2).strip()} (harness {h.name})"
+            if e not in trusted:
+                trusted.append(e)
+    for u in units:
+        if any(h in sel for h in u.harnesses):
+            for a in u.assets:
+                e = {"support": None,
+                     "mocks": "verification-only hashers (recording / mixing) stand for an arbitrary hash function",
+                     "models": "sorted-Vec model substituted for alloc::collections::BTreeMap/BTreeSet under cfg(kani)",
+                     "tiny": "verification-only prime field F_17 implementing the real field traits (generic code monomorphised at it)"}.get(a)
+                if e and e not in trusted:
+                    trusted.append(e)
+            for sfile, sold, snew, _opt in u.subst:
+                e = f"cfg-split import in {sfile}: `{sold}`"
+                if e not in trusted:
+                    trusted.append(e)
     scratch = None
     kres = {}
     try:
